@@ -7,14 +7,15 @@ VARIABLES progs, pos
 vars == <<progs, pos>>
 
 StdI == [digit |-> "digit", word |-> "word", any |-> "any"]
-CfgC(lock) == [name |-> "r1", trace |-> FALSE, lock |-> lock, icpt |-> StdI, domain |-> ""]
+CfgC(lock) == [name |-> "r1", trace |-> FALSE, lock |-> lock, icpt |-> StdI, domain |-> "", recovery |-> Mode = "c07quiet"]
 Op0 == [op |-> "", inst |-> "", pat |-> "", methods |-> <<>>, val |-> "", method |-> "", path |-> "", host |-> "", strict |-> FALSE,
-        params |-> <<>>, key |-> "", hdr |-> <<>>, prefix |-> "", domains |-> <<>>]
+        params |-> <<>>, key |-> "", hdr |-> <<>>, prefix |-> "", domains |-> <<>>, faults |-> <<>>]
 New(n)          == [Op0 EXCEPT !.op = "new", !.inst = n]
 Hd(n, p, ms, h) == [Op0 EXCEPT !.op = "handle", !.inst = n, !.pat = p, !.methods = ms, !.val = h]
 Rm(n, p, ms)    == [Op0 EXCEPT !.op = "remove", !.inst = n, !.pat = p, !.methods = ms]
 Cl(n, pre)      == [Op0 EXCEPT !.op = "clean", !.inst = n, !.prefix = pre]
 Sv(n, m, path, wit, wps) == [Op0 EXCEPT !.op = "serve", !.inst = n, !.method = m, !.path = path, !.key = wit, !.hdr = wps]
+SvF(n, m, path, wit, wps, f) == [Sv(n, m, path, wit, wps) EXCEPT !.faults = f]     \* the handler panics; the router's recovery contains it
 Rt(n)           == [Op0 EXCEPT !.op = "routes", !.inst = n]
 Ur(n, st, p, ps) == [Op0 EXCEPT !.op = "url", !.inst = n, !.strict = st, !.pat = p, !.params = ps]
 HAd(n, d)       == [Op0 EXCEPT !.op = "hadd", !.inst = n, !.domains = <<d>>]
@@ -41,8 +42,10 @@ Roles == CASE Mode = "c06"      -> <<[k |-> "w", n |-> "r1"], [k |-> "w", n |-> 
            [] Mode = "c07inst"  -> <<[k |-> "own", n |-> "r1"], [k |-> "own", n |-> "r2"], [k |-> "hosts", n |-> "h1"]>>
            [] Mode = "c07quiet" -> <<[k |-> "r", n |-> "r1"], [k |-> "r", n |-> "r1"], [k |-> "r", n |-> "r1"], [k |-> "r", n |-> "r1"]>>
            [] Mode = "c07seq"   -> <<[k |-> "seq", n |-> ""]>>
+QOps(n) == ROps(n) \cup {SvF(n, "GET", "/posts/author", "/posts/author", <<>>, [x \in {"h:route"} |-> "error"]),
+                        SvF(n, "GET", "/nope/zz", "", <<>>, [x \in {"h:404"} |-> "string"])}
 OpsFor(role) == CASE role.k = "w" -> WOps(role.n)
-                  [] role.k = "r" -> ROps(role.n)
+                  [] role.k = "r" -> IF Mode = "c07quiet" THEN QOps(role.n) ELSE ROps(role.n)
                   [] role.k = "own" -> WOps(role.n) \cup ROps(role.n)
                   [] role.k = "hosts" -> HOpsC(role.n)
                   [] role.k = "seq" -> WOps("r1") \cup ROps("r1") \cup ROps("r2") \cup {New("r2"), Hd("r2", "/posts/author", P, "")} \cup {x \in WOps("r3") : x.op = "handle"}
